@@ -48,76 +48,81 @@ theorem csv_row_is_join_of_header_cells (N : NumOps) (mapping : List (String × 
   rw [← csv_row_columns_follow_header]
   simp
 
-/-- Full statement wanted: *a CSV reader splits every row into as many fields as the header has*.
-    It is false of the code for array/object cells and for strings holding a double quote (see the two
-    counterexamples below): cells are the values' compact JSON text, written unquoted.  Proved here for rows
-    whose cells are scalars a reader takes as one field: `null`, booleans, numbers, and strings without `"`
-    (commas and escaped newlines inside such strings are fine — the JSON quotes protect them). -/
-theorem csv_reader_sees_header_columns_partial (N : NumOps) (mapping : List (String × CsvMapping))
-    (sorted : Bool) (r : Json) (hne : mapping ≠ [])
-    (hscalar : ∀ c ∈ rowColumns mapping sorted, ∀ v, c.2.apply N r = some v → ScalarCell v) :
-    splitRow (csvRow N (rowColumns mapping sorted) r) = (rowColumns mapping sorted).map (fun c => cellText N c.2 r) ∧
-    (splitRow (csvRow N (rowColumns mapping sorted) r)).length = (headerKeys mapping sorted).length := by
-  have hsplit : splitRow (csvRow N (rowColumns mapping sorted) r)
-      = (rowColumns mapping sorted).map (fun c => cellText N c.2 r) := by
-    unfold csvRow
-    apply splitRow_join
-    · intro h
-      have hlen := congrArg List.length (csv_row_columns_follow_header mapping sorted)
-      have hperm := (csv_header_is_permutation_of_mapping mapping sorted).length_eq
-      simp only [List.map_eq_nil_iff] at h
-      rw [h] at hlen
-      simp only [List.map_nil, List.length_nil, List.length_map] at hlen hperm
-      exact hne (List.length_eq_zero_iff.1 (by omega))
-    · intro t ht
-      simp only [List.mem_map] at ht
-      obtain ⟨c, hc, rfl⟩ := ht
-      unfold cellText
-      cases hv : c.2.apply N r with
-      | none => rfl
-      | some v => exact commaSafe_compact_of_scalar v (hscalar c hc v hv)
-  refine ⟨hsplit, ?_⟩
-  rw [hsplit, ← csv_row_columns_follow_header]
-  simp
-
 /-- numbers are abstract in the theorems; any `NumOps` will do for the witnesses -/
 def anyNum : NumOps := { sum := fun _ => 0, finite := fun _ => true, fmt := fun _ => "0.0" }
 
-/-- DEFECT (key `sink/csv-nonscalar-cell-unquoted`): a mapping that selects an array (say the route's edge
-list) is written as `[0,2]` without CSV quoting; the header has 2 columns, a reader sees 3 fields -/
-theorem csv_array_cell_counterexample :
+/-- FULL (after the repairs `fix: CSV response output escapes its fields` and `… writes a string cell as its
+text`): every written CSV row reads back, under RFC 4180 rules (`SinkRead.readRow`: quoted fields, `""` for
+a quote, commas and line breaks allowed inside quotes), into exactly as many fields as the header has, and
+field `i` is the value of column `i`: a string's text, any other value's JSON text, empty when the mapping
+failed — for every response, mapping (paths, sums, optional), orientation. -/
+theorem csv_row_reads_back (N : NumOps) (mapping : List (String × CsvMapping)) (sorted : Bool) (r : Json)
+    (hne : mapping ≠ []) :
+    SinkRead.readRow (csvRow N (rowColumns mapping sorted) r)
+      = some ((rowColumns mapping sorted).map fun c => cellValue N c.2 r) ∧
+    ((rowColumns mapping sorted).map fun c => cellValue N c.2 r).length = (headerKeys mapping sorted).length := by
+  have hcols : rowColumns mapping sorted ≠ [] := by
+    intro h
+    have hlen := congrArg List.length (csv_row_columns_follow_header mapping sorted)
+    have hperm := (csv_header_is_permutation_of_mapping mapping sorted).length_eq
+    rw [h] at hlen
+    simp only [List.map_nil, List.length_nil, List.length_map] at hlen hperm
+    exact hne (List.length_eq_zero_iff.1 (by omega))
+  constructor
+  · have e : csvRow N (rowColumns mapping sorted) r
+        = joinWith [','] (((rowColumns mapping sorted).map fun c => cellValue N c.2 r).map csvField) := by
+      unfold csvRow
+      congr 1
+      simp only [List.map_map]
+      apply List.map_congr_left
+      intro c _
+      simp only [Function.comp, cellText, cellValue]
+      cases c.2.apply N r with
+      | none => simp [csvField, needsQuotes]
+      | some v => rfl
+    rw [e]
+    exact SinkRead.readRow_join _ (by simpa using hcols)
+  · rw [← csv_row_columns_follow_header]; simp
+
+/-- the header line reads back into the column names, in the order the rows use -/
+theorem csv_header_reads_back (mapping : List (String × CsvMapping)) (sorted : Bool) (hne : mapping ≠ []) :
+    ∃ line, headerText (.csv mapping sorted) = line ++ ['\n'] ∧
+      SinkRead.readRow line = some ((rowColumns mapping sorted).map fun c => c.1.toList) := by
+  refine ⟨joinWith [','] (((headerKeys mapping sorted).map String.toList).map csvField), ?_, ?_⟩
+  · simp only [headerText, initialContents, Option.getD_some, List.map_map]
+    rfl
+  · rw [SinkRead.readRow_join]
+    · rw [← csv_row_columns_follow_header]; simp [List.map_map, Function.comp]
+    · intro h
+      have hperm := (csv_header_is_permutation_of_mapping mapping sorted).length_eq
+      simp only [List.map_eq_nil_iff] at h
+      rw [h] at hperm
+      simp only [List.length_nil, List.length_map] at hperm
+      exact hne (List.length_eq_zero_iff.1 hperm.symm)
+
+/-- witnesses of the repaired defects, now positive (keys `sink/csv-nonscalar-cell-unquoted`,
+`sink/csv-string-cell-json-escaped` fire if they return): an array cell and a string holding a quote and a
+comma each read back as ONE field with the cell's value -/
+example :
     let f := Format.csv [("path", .path "route.path"), ("origin", .path "request.origin_vertex")] false
     let r := Json.obj [("request", .obj [("origin_vertex", .num "0" 0)]),
                        ("route", .obj [("path", .arr [.num "0" 0, .num "2" 0])])]
-    (splitRow (rowOf anyNum f r)).length = 3 ∧ (headerKeys [("path", CsvMapping.path "route.path"),
-      ("origin", .path "request.origin_vertex")] false).length = 2 := by
+    rowOf anyNum f r = txt "0,\"[0,2]\"" ∧ SinkRead.readRow (rowOf anyNum f r) = some [txt "0", txt "[0,2]"] := by
   decide
 
-/-- DEFECT (key `sink/csv-string-cell-json-escaped`): a string cell keeps its JSON escaping (`\"`), which is
-not CSV escaping (`""`): `5" nails, 2 boxes` is split at its comma -/
-theorem csv_quoted_string_cell_counterexample :
+example :
     let f := Format.csv [("name", .path "request.name")] false
     let r := Json.obj [("request", .obj [("name", .str "5\" nails, 2 boxes")])]
-    (splitRow (rowOf anyNum f r)).length = 2 := by
+    rowOf anyNum f r = txt "\"5\"\" nails, 2 boxes\"" ∧
+    SinkRead.readRow (rowOf anyNum f r) = some [txt "5\" nails, 2 boxes"] := by
   decide
 
-example : ∃ v, ScalarCell v ∧ CommaSafe (compact v) ∧ (compact v).contains ',' :=
-  ⟨.str "with, comma", by simp [ScalarCell], by unfold CommaSafe; decide, by decide⟩
-
-/-! ## 2. A record is one line -/
+/-! ## 2. A record is intact text: one line (JSON), one RFC 4180 record (CSV) -/
 
 /-- a newline-delimited JSON record holds no line break (they are escaped inside strings) -/
 theorem json_record_is_one_line (N : NumOps) (r : Json) (h : numsOk r = true) :
     '\n' ∉ rowOf N (.json true) r := by
   simpa [rowOf, formatResponse] using compact_no_newline r h
-
-/-- a CSV row holds no line break, whatever the mapping selects -/
-theorem csv_record_is_one_line (N : NumOps) (hN : N.FmtOk) (mapping : List (String × CsvMapping))
-    (sorted : Bool) (r : Json) (hr : numsOk r = true) (hw : Writable N (.csv mapping sorted) r) :
-    '\n' ∉ rowOf N (.csv mapping sorted) r := by
-  have h := formatResponse_of_writable hw
-  rw [(formatResponse_csv_cases N mapping sorted r _ _ h).1]
-  exact csvRow_no_newline N hN _ r hr
 
 /-- so the chunk one write appends ends in the only newline it contains -/
 theorem record_has_exactly_one_newline (row : List Char) (h : '\n' ∉ row) :
@@ -127,8 +132,42 @@ theorem record_has_exactly_one_newline (row : List Char) (h : '\n' ∉ row) :
   · rw [List.count_append, List.count_eq_zero.2 h]; rfl
   · simp
 
+/-- a CSV row may hold line breaks — inside quoted fields only (a string cell is written as its text): the
+record splitter of a reader (`SinkRead.splitRecords`: a newline ends a record unless inside quotes) cuts any
+sequence of written rows back into exactly those rows, nothing left over -/
+theorem csv_rows_split_back (N : NumOps) (mapping : List (String × CsvMapping)) (sorted : Bool)
+    (rs : List Json) :
+    SinkRead.splitRecords ((rs.map fun r => record (csvRow N (rowColumns mapping sorted) r)).flatten)
+      = (rs.map fun r => csvRow N (rowColumns mapping sorted) r, []) := by
+  have := SinkRead.splitRecords_records (rs.map fun r => csvRow N (rowColumns mapping sorted) r) (by
+    intro row hrow
+    obtain ⟨r, _, rfl⟩ := List.mem_map.1 hrow
+    have e : csvRow N (rowColumns mapping sorted) r
+        = joinWith [','] (((rowColumns mapping sorted).map fun c => cellValue N c.2 r).map csvField) := by
+      unfold csvRow
+      congr 1
+      simp only [List.map_map]
+      apply List.map_congr_left
+      intro c _
+      simp only [Function.comp, cellText, cellValue]
+      cases c.2.apply N r with
+      | none => simp [csvField, needsQuotes]
+      | some v => rfl
+    rw [e]
+    exact SinkRead.balanced_join _)
+  rw [List.map_map] at this
+  exact this
+
 example : ∃ r, numsOk r = true ∧ rowOf anyNum (.json true) r ≠ [] ∧ (compact r).contains '\\' :=
   ⟨.obj [("note", .str "line\nbreak")], rfl, by decide, by decide⟩
+
+example :
+    let f := Format.csv [("note", .path "note"), ("n", .path "n")] true
+    let a := Json.obj [("note", .str "line\nbreak"), ("n", .num "1" 0)]
+    let b := Json.obj [("note", .str "plain"), ("n", .num "2" 0)]
+    (rowOf anyNum f a).contains '\n' = true ∧
+    SinkRead.splitRecords (recordOf anyNum f a ++ recordOf anyNum f b) = ([rowOf anyNum f a, rowOf anyNum f b], []) := by
+  decide
 
 /-! ## 3. Writing never loses information of the response handed back -/
 
@@ -137,13 +176,11 @@ theorem json_write_keeps_response (N : NumOps) (nd : Bool) (r : Json) :
     postOf N (.json nd) r = r := by
   simp [postOf, formatResponse]
 
-/-- Full statement wanted: *every key/value of the response before the write is there, unchanged, after it*
-    — for all responses and mappings.  It holds (this is the repaired behaviour: an existing `error` is
-    kept and the mapping errors go under `csv_error`) unless the response already holds BOTH `error` and
-    `csv_error`; see the counterexample below. -/
-theorem write_never_loses_information_partial (N : NumOps) (f : Format) (r : Json) (row : List Char) (r' : Json)
-    (h : formatResponse N f r = .ok (row, r'))
-    (hkeys : r.get? "error" = none ∨ r.get? "csv_error" = none) :
+/-- FULL (after `fix: CSV response formatting never replaces an earlier csv_error`): every key/value of the
+response before the write is there, unchanged, after it — for all responses, formats and mappings.  The
+mapping errors go under the first of `error`, `csv_error`, `csv_error_2`, … that is not in the response. -/
+theorem write_never_loses_information (N : NumOps) (f : Format) (r : Json) (row : List Char) (r' : Json)
+    (h : formatResponse N f r = .ok (row, r')) :
     ∀ k v, r.get? k = some v → r'.get? k = some v := by
   intro k v hk
   cases f with
@@ -151,72 +188,71 @@ theorem write_never_loses_information_partial (N : NumOps) (f : Format) (r : Jso
     simp only [formatResponse, Outcome.ok.injEq, Prod.mk.injEq] at h
     rw [← h.2]; exact hk
   | csv m s =>
-    rcases (formatResponse_csv_cases N m s r row r' h).2 with rfl | hassign
+    rcases (formatResponse_csv_cases N m s r row r' h).2 with rfl | ⟨key, hkey, _, hassign⟩
     · exact hk
-    · exact get?_indexAssign_new r r' _ _ (csvErrorKey_new r hkeys) hassign k v hk
+    · exact get?_indexAssign_new r r' _ _ (csvErrorKey_new r key hkey) hassign k v hk
 
-/-- in particular a search error survives any CSV mapping (the witness of the fixed defect, generalised) -/
+/-- in particular a search error survives any CSV mapping (the witness of the first fixed defect, generalised) -/
 theorem search_error_survives_csv_write (N : NumOps) (mapping : List (String × CsvMapping)) (sorted : Bool)
     (r : Json) (e : Json) (row : List Char) (r' : Json) (he : r.get? "error" = some e)
-    (hc : r.get? "csv_error" = none)
     (h : formatResponse N (.csv mapping sorted) r = .ok (row, r')) : r'.get? "error" = some e :=
-  write_never_loses_information_partial N _ r row r' h (Or.inr hc) "error" e he
+  write_never_loses_information N _ r row r' h "error" e he
 
-/-- the write changes nothing else: the response is returned as it was, or with exactly one entry added/set
-under `error` or `csv_error` -/
-theorem csv_write_touches_one_key (N : NumOps) (mapping : List (String × CsvMapping)) (sorted : Bool)
+/-- the write changes nothing else: the response is returned as it was, or with exactly one entry added under
+a key that was not there -/
+theorem csv_write_adds_one_new_key (N : NumOps) (mapping : List (String × CsvMapping)) (sorted : Bool)
     (r : Json) (row : List Char) (r' : Json) (h : formatResponse N (.csv mapping sorted) r = .ok (row, r')) :
-    r' = r ∨ ∃ errs, errs ≠ [] ∧ Json.indexAssign r (csvErrorKey r) (csvErrorValue errs) = some r' ∧
-      (csvErrorKey r = "error" ∨ csvErrorKey r = "csv_error") := by
-  unfold formatResponse at h
-  simp only at h
-  split at h
-  · simp only [Outcome.ok.injEq, Prod.mk.injEq] at h
-    exact Or.inl h.2.symm
-  · rename_i hne
-    split at h
-    · rename_i r'' hr''
-      simp only [Outcome.ok.injEq, Prod.mk.injEq] at h
-      refine Or.inr ⟨_, ?_, by rw [hr'', h.2], ?_⟩
-      · intro e; rw [e] at hne; exact hne rfl
-      · unfold csvErrorKey; split <;> simp
-    · exact absurd h (by simp)
+    r' = r ∨ ∃ key errs, errs ≠ [] ∧ r.get? key = none ∧
+      Json.indexAssign r key (csvErrorValue errs) = some r' := by
+  rcases (formatResponse_csv_cases N mapping sorted r row r' h).2 with e | ⟨key, hkey, hne, hassign⟩
+  · exact Or.inl e
+  · exact Or.inr ⟨key, _, hne, csvErrorKey_new r key hkey, hassign⟩
 
-/-- DEFECT (key `sink/csv-error-replaced`): when the response already holds `error` *and* `csv_error` — e.g.
-the second CSV member of a Combined policy writing a failed query — the earlier `csv_error` is replaced -/
-theorem write_replaces_csv_error_counterexample :
+/-- the search for a free key always ends (an object with `n` entries cannot hold `n + 2` different names) -/
+theorem error_key_search_terminates (r : Json) : ∃ k, csvErrorKey r = some k ∧ r.get? k = none := by
+  obtain ⟨k, hk⟩ := freshErrorKey_terminates r
+  exact ⟨k, hk, csvErrorKey_new r k hk⟩
+
+/-- witness of the repaired defect (key `sink/csv-error-replaced` fires if it returns): a response that
+already holds `error` and `csv_error` keeps both; the mapping errors go under `csv_error_2` -/
+example :
     let f := Format.csv [("distance", .path "route.traversal_summary.distance")] false
     let r := Json.obj [("request", .obj []), ("error", .str "no path"), ("csv_error", .str "from an earlier sink")]
-    (r.get? "csv_error").bind Json.asStr? = some "from an earlier sink" ∧
-    ((postOf anyNum f r).get? "csv_error").bind Json.asStr? = none ∧
-    ((postOf anyNum f r).get? "error").bind Json.asStr? = some "no path" := by
+    ((postOf anyNum f r).get? "csv_error").bind Json.asStr? = some "from an earlier sink" ∧
+    ((postOf anyNum f r).get? "error").bind Json.asStr? = some "no path" ∧
+    ((postOf anyNum f r).get? "csv_error_2").isSome = true := by
   decide
 
-/-- the same through a Combined policy of two CSV files and one failed query: the first member's mapping
-errors (column `distance`) are gone from the response handed back, only the second's (`energy`) remain -/
-theorem combined_csv_sinks_lose_first_errors_counterexample :
+/-- the same through a Combined policy of three CSV files and one failed query: every member's mapping errors
+are in the response handed back -/
+example :
     let mk := fun (f : Format) =>
       ({ format := f, flushEvery := 1, file := [[]], iterations := 0, flushes := 0, poisoned := false } : FileSink)
     let s1 := mk (.csv [("distance", .path "route.traversal_summary.distance")] false)
     let s2 := mk (.csv [("energy", .path "route.traversal_summary.energy")] false)
+    let s3 := mk (.csv [("time", .path "route.traversal_summary.time")] false)
     let r := Json.obj [("request", .obj []), ("error", .str "no path")]
-    (match writeCombined anyNum [s1, s2] r with
-      | .ok _ r' => ((r'.get? "csv_error").bind (·.get? "csv")).bind (fun o => (o.get? "distance").map (fun _ => true))
-      | _ => some false) = none ∧
-    (match writeCombined anyNum [s1, s2] r with
-      | .ok _ r' => ((r'.get? "csv_error").bind (·.get? "csv")).bind (fun o => (o.get? "energy").map (fun _ => true))
-      | _ => some false) = some true := by
+    (match writeCombined anyNum [s1, s2, s3] r with
+      | .ok _ r' =>
+        (((r'.get? "csv_error").bind (·.get? "csv")).bind (·.get? "distance")).isSome &&
+        (((r'.get? "csv_error_2").bind (·.get? "csv")).bind (·.get? "energy")).isSome &&
+        (((r'.get? "csv_error_3").bind (·.get? "csv")).bind (·.get? "time")).isSome &&
+        ((r'.get? "error").bind Json.asStr? == some "no path")
+      | _ => false) = true := by
   decide
 
-/-- responses as the application produces them (objects) can always be written; a JSON value that is
-neither an object nor `null` makes the CSV formatter panic when a mapping fails (modelled, not reachable
-from `CompassApp::run`, whose responses are objects) -/
+/-- responses as the application produces them (objects) can always be written: the formatter returns; a
+JSON value that is neither an object nor `null` makes the CSV formatter panic when a mapping fails
+(modelled, not reachable from `CompassApp::run`, whose responses are objects) -/
 theorem objects_are_writable (N : NumOps) (f : Format) (r : Json) (h : r.isObject = true ∨ r.isNull = true) :
     Writable N f r :=
   writable_of_obj_or_null N f r h
 
 example : ¬ Writable anyNum (.csv [("a", .path "a")] false) (.num "3" 0) := by
-  exact fun h => h rfl
+  rintro ⟨p, hp⟩
+  have : formatResponse anyNum (.csv [("a", .path "a")] false) (.num "3" 0) = .panic := rfl
+  rw [this] at hp
+  cases hp
 
 /-! ## 4. Opening the file: append / overwrite / error-if-exists, header written once -/
 
@@ -232,9 +268,10 @@ theorem open_file_spec (f : Format) (c : List Char) :
     openFile .error f none = some (headerText f) := by
   simp [openFile]
 
-/-- the header of a CSV file is the comma-joined column names and a newline; newline-delimited JSON has none -/
+/-- the header of a CSV file is the comma-joined (CSV-escaped) column names and a newline; newline-delimited JSON has none -/
 theorem header_text_spec (mapping : List (String × CsvMapping)) (sorted : Bool) :
-    headerText (.csv mapping sorted) = joinWith [','] ((headerKeys mapping sorted).map String.toList) ++ ['\n'] ∧
+    headerText (.csv mapping sorted)
+      = joinWith [','] ((headerKeys mapping sorted).map fun k => csvField k.toList) ++ ['\n'] ∧
     headerText (.json true) = [] := by
   simp [headerText, initialContents]
 
@@ -242,7 +279,7 @@ theorem header_text_spec (mapping : List (String × CsvMapping)) (sorted : Bool)
 theorem build_ok_spec (mode : WriteMode) (f : Format) (rate : Option Int) (existing : Option (List Char))
     (s : FileSink) (h : build mode f rate existing = .ok s) :
     (∃ c, openFile mode f existing = some c ∧ s.file = [c]) ∧ s.format = f ∧ s.iterations = 0 ∧
-    s.poisoned = false ∧ 0 < s.flushEvery := by
+    s.Healthy ∧ 0 < s.flushEvery := by
   unfold build at h
   split at h
   · simp at h
@@ -252,7 +289,7 @@ theorem build_ok_spec (mode : WriteMode) (f : Format) (rate : Option Int) (exist
     · rename_i n hn
       simp only [BuildResult.ok.injEq] at h
       subst h
-      refine ⟨⟨c, hc, rfl⟩, rfl, rfl, rfl, ?_⟩
+      refine ⟨⟨c, hc, rfl⟩, rfl, rfl, ⟨rfl, rfl⟩, ?_⟩
       unfold flushEvery at hn
       split at hn
       · simp only [Option.some.injEq] at hn
@@ -276,14 +313,14 @@ responses together with the still-queued ones are a permutation of the batch (no
 the counter counts them; nothing failed.  `persist` is the persistence policy: it changes `returned`
 only, never the file. -/
 theorem file_holds_one_record_per_written_response (N : NumOps) (persist : Bool) (sink : FileSink)
-    (queues : List (List Json)) (schedule : List Nat) (hp : sink.poisoned = false)
+    (queues : List (List Json)) (schedule : List Nat) (hp : sink.Healthy)
     (hw : ∀ r ∈ queues.flatten, Writable N sink.format r) :
     ∃ trace : List Json,
       let final := (Run.init sink queues).exec N persist schedule
       final.sink.file = sink.file ++ trace.map (recordOf N sink.format) ∧
       (trace ++ final.queues.flatten).Perm queues.flatten ∧
       final.sink.iterations = sink.iterations + trace.length ∧
-      final.failed = 0 ∧ final.sink.poisoned = false := by
+      final.failed = 0 ∧ final.sink.Healthy := by
   obtain ⟨t, h⟩ := exec_progress N persist schedule (Run.init sink queues) hp hw (by simp [Run.init])
   exact ⟨t, h.file, h.queues, h.iterations, h.failed, h.poisoned⟩
 
@@ -291,7 +328,7 @@ theorem file_holds_one_record_per_written_response (N : NumOps) (persist : Bool)
 exactly `{record r | r ∈ batch}`: one intact record per response — none lost, duplicated, split or
 interleaved — for every parallelism (number of queues) and every schedule -/
 theorem complete_batch_file_is_multiset_of_records (N : NumOps) (persist : Bool) (sink : FileSink)
-    (queues : List (List Json)) (schedule : List Nat) (hp : sink.poisoned = false)
+    (queues : List (List Json)) (schedule : List Nat) (hp : sink.Healthy)
     (hw : ∀ r ∈ queues.flatten, Writable N sink.format r)
     (hdone : ((Run.init sink queues).exec N persist schedule).done = true) :
     ∃ appended : List (List Char),
@@ -307,7 +344,7 @@ theorem complete_batch_file_is_multiset_of_records (N : NumOps) (persist : Bool)
 
 /-- the text of the file: opening contents, then the records one after the other — nothing in between -/
 theorem file_text_is_concatenation (N : NumOps) (persist : Bool) (sink : FileSink)
-    (queues : List (List Json)) (schedule : List Nat) (hp : sink.poisoned = false)
+    (queues : List (List Json)) (schedule : List Nat) (hp : sink.Healthy)
     (hw : ∀ r ∈ queues.flatten, Writable N sink.format r) :
     ∃ trace : List Json,
       ((Run.init sink queues).exec N persist schedule).sink.contents
@@ -317,7 +354,7 @@ theorem file_text_is_concatenation (N : NumOps) (persist : Bool) (sink : FileSin
 
 /-- line count: with one-line records the completed batch adds exactly one newline per response -/
 theorem complete_batch_line_count (N : NumOps) (persist : Bool) (sink : FileSink)
-    (queues : List (List Json)) (schedule : List Nat) (hp : sink.poisoned = false)
+    (queues : List (List Json)) (schedule : List Nat) (hp : sink.Healthy)
     (hw : ∀ r ∈ queues.flatten, Writable N sink.format r)
     (hline : ∀ r ∈ queues.flatten, '\n' ∉ rowOf N sink.format r)
     (hdone : ((Run.init sink queues).exec N persist schedule).done = true) :
@@ -388,7 +425,7 @@ theorem file_same_under_both_persistence_policies (N : NumOps) (s : Run) (schedu
 multiset, the `format_response`-amended versions of the responses written (hence, by section 3, they keep
 everything they held); under `DiscardResponseFromMemory` nothing is kept -/
 theorem returned_responses (N : NumOps) (persist : Bool) (sink : FileSink)
-    (queues : List (List Json)) (schedule : List Nat) (hp : sink.poisoned = false)
+    (queues : List (List Json)) (schedule : List Nat) (hp : sink.Healthy)
     (hw : ∀ r ∈ queues.flatten, Writable N sink.format r)
     (hdone : ((Run.init sink queues).exec N persist schedule).done = true) :
     ((Run.init sink queues).exec N persist schedule).returned.flatten.Perm
@@ -412,7 +449,7 @@ theorem returned_responses (N : NumOps) (persist : Bool) (sink : FileSink)
 /-- and exactly, not only as a multiset: under `PersistResponseInMemory` worker `w` hands back, in the order
 of its queue, the amended version of each of its responses — the same vectors for every schedule -/
 theorem returned_in_query_order (N : NumOps) (sink : FileSink) (queues : List (List Json))
-    (schedule : List Nat) (hp : sink.poisoned = false)
+    (schedule : List Nat) (hp : sink.Healthy)
     (hw : ∀ r ∈ queues.flatten, Writable N sink.format r)
     (hdone : ((Run.init sink queues).exec N true schedule).done = true) :
     ((Run.init sink queues).exec N true schedule).returned
@@ -449,7 +486,7 @@ example :
 file gets exactly one record and one count, and the response stays an object (so the next one can be
 written too).  Member `i` writes the response as members `< i` left it. -/
 theorem combined_sink_appends_one_record_to_every_member (N : NumOps) (ss : List FileSink) (r : Json)
-    (hp : ∀ s ∈ ss, s.poisoned = false) (hr : r.isObject = true) :
+    (hp : ∀ s ∈ ss, s.Healthy) (hr : r.isObject = true) :
     ∃ ss' r', writeCombined N ss r = .ok ss' r' ∧ r'.isObject = true ∧ AppendedOne ss ss' :=
   writeCombined_objects N ss r hp hr
 
@@ -464,7 +501,7 @@ amended error responses under both policies and, under `PersistResponseInMemory`
 responses too — then as many responses as records were written. -/
 theorem app_file_has_one_record_per_response (N : NumOps) (persist : Bool) (sink : FileSink)
     (queues : List (List Json)) (inputErrors : List Json) (schedule : List Nat)
-    (hp : sink.poisoned = false)
+    (hp : sink.Healthy)
     (hw : ∀ r ∈ inputErrors ++ queues.flatten, Writable N sink.format r)
     (hdone : Complete queues schedule) :
     ∃ (sink' : FileSink) (returned : List Json) (appended : List (List Char)),
@@ -484,8 +521,10 @@ theorem app_file_has_one_record_per_response (N : NumOps) (persist : Bool) (sink
   obtain ⟨app, hfile, hperm, hlen, hit⟩ :=
     complete_batch_file_is_multiset_of_records N persist s₁ queues schedule hpo₁ hw₁ hd
   have hret := returned_responses N persist s₁ queues schedule hpo₁ hw₁ hd
+  obtain ⟨_, _, _, _, hfailed, _⟩ :=
+    file_holds_one_record_per_written_response N persist s₁ queues schedule hpo₁ hw₁
   rw [hfmt₁] at hperm hret
-  refine ⟨((Run.init s₁ queues).exec N persist schedule).sink, _, app, by simp only [appRun, hs₁],
+  refine ⟨((Run.init s₁ queues).exec N persist schedule).sink, _, app, by simp [appRun, hs₁, hfailed],
     by rw [hfile, hfile₁], hperm, ?_, ?_,
     List.Perm.append_right _ hret, ?_⟩
   · rw [List.length_append, List.length_map, hlen]
@@ -571,7 +610,7 @@ theorem json_record_determines_response (a b : Json) (ha : numsOk a = true) (hb 
 /-- for ANY reader that gives back what was written (up to a normal form `norm`), the records of a completed
 batch read back, as a multiset, to the batch — for every schedule and both persistence policies -/
 theorem json_lines_parse_back (N : NumOps) (persist : Bool) (sink : FileSink) (queues : List (List Json))
-    (schedule : List Nat) (hp : sink.poisoned = false) (hf : sink.format = .json true)
+    (schedule : List Nat) (hp : sink.Healthy) (hf : sink.format = .json true)
     (parse : List Char → Option Json) (norm : Json → Json)
     (hparse : ∀ j ∈ queues.flatten, parse (compact j) = some (norm j))
     (hdone : ((Run.init sink queues).exec N persist schedule).done = true) :
@@ -596,7 +635,7 @@ theorem json_lines_parse_back (N : NumOps) (persist : Bool) (sink : FileSink) (q
 /-- instantiated with the proved reader: no assumption left on the model side (what remains trusted is that
 `serde_json::from_str` agrees with it, which the harness checks on every generated record) -/
 theorem json_lines_read_back (N : NumOps) (persist : Bool) (sink : FileSink) (queues : List (List Json))
-    (schedule : List Nat) (hp : sink.poisoned = false) (hf : sink.format = .json true)
+    (schedule : List Nat) (hp : sink.Healthy) (hf : sink.format = .json true)
     (hnum : ∀ r ∈ queues.flatten, numsOk r = true)
     (hdone : ((Run.init sink queues).exec N persist schedule).done = true) :
     ∃ rows : List (List Char),
@@ -627,6 +666,179 @@ theorem json_array_form_contents (N : NumOps) (a b : Json) :
   simp only [build, openFile, flushEvery, headerText, initialContents, BuildResult.ok.injEq] at h
   subst h
   simp [FileSink.write, formatResponse, FileSink.close, FileSink.contents, record, finalContents, txt]
+
+/-! ## 9. Paths of every kind, failing devices, close, Combined build (what the code does when things go wrong) -/
+
+/-- `WriteMode::open_file` at every kind of path.  A missing path is created with the header in every mode; a
+file: Append keeps it (no second header), Overwrite starts over with the header, Error refuses; a directory
+and a path without parent directory cannot be opened (Error refuses the directory: it exists); a device that
+refuses writes opens in Append mode (it exists: no header is written) and fails every later write. -/
+theorem open_path_spec (f : Format) (c : List Char) :
+    (∀ mode, openPath mode f .missing = .ok (headerText f) false) ∧
+    openPath .append f (.file c) = .ok c false ∧
+    openPath .overwrite f (.file c) = .ok (headerText f) false ∧
+    openPath .error f (.file c) = .refused ∧
+    openPath .append f .directory = .ioError ∧ openPath .overwrite f .directory = .ioError ∧
+    openPath .error f .directory = .refused ∧
+    (∀ mode, openPath mode f .noParent = .ioError) ∧
+    openPath .append f .full = .ok [] true ∧ openPath .error f .full = .refused := by
+  refine ⟨fun mode => rfl, rfl, rfl, rfl, rfl, rfl, rfl, fun mode => rfl, rfl, rfl⟩
+
+/-- on files and missing paths `openPath` is `openFile` (sections 4–6 speak about these) -/
+theorem open_path_on_files (mode : WriteMode) (f : Format) (c : List Char) :
+    openPath mode f (.file c) = (match openFile mode f (some c) with | some c' => .ok c' false | none => .refused) ∧
+    openPath mode f .missing = (match openFile mode f none with | some c' => .ok c' false | none => .refused) := by
+  cases mode <;> exact ⟨rfl, rfl⟩
+
+/-- an open that is refused or fails leaves whatever is at the path alone -/
+theorem failed_open_leaves_path_alone (mode : WriteMode) (f : Format) (st : PathState)
+    (h : openPath mode f st = .refused ∨ openPath mode f st = .ioError) : pathAfterOpen mode f st = st := by
+  unfold pathAfterOpen
+  cases st <;> cases mode <;> simp_all [openPath] <;> split <;> simp_all
+
+/-- `build` at a path: the sink is healthy exactly when the path is not a write-refusing device; it carries
+the configured name and starts on what `open_file` left -/
+theorem build_at_spec (mode : WriteMode) (name : String) (f : Format) (rate : Option Int) (st : PathState)
+    (s : FileSink) (h : buildAt mode name f rate st = .ok s) :
+    ∃ c failing, openPath mode f st = .ok c failing ∧ s.file = [c] ∧ s.failing = failing ∧ s.poisoned = false ∧
+      s.name = name ∧ s.format = f ∧ s.iterations = 0 := by
+  unfold buildAt at h
+  split at h
+  · simp at h
+  · simp at h
+  · rename_i c failing hc
+    split at h
+    · simp at h
+    · simp only [BuildAtResult.ok.injEq] at h
+      subst h
+      exact ⟨c, failing, hc, rfl, rfl, rfl, rfl, rfl, rfl⟩
+
+/-- a write to a device that refuses it: `write_response` returns an error, nothing reaches the file, the
+counter stands still — but the formatter has run, so the response handed back carries its bookkeeping -/
+theorem failing_device_write (N : NumOps) (s : FileSink) (r : Json) (hp : s.poisoned = false)
+    (hf : s.failing = true) (hw : Writable N s.format r) :
+    s.write N r = .ioError s (postOf N s.format r) := by
+  unfold FileSink.write
+  rw [hp, formatResponse_of_writable hw]
+  simp [hf]
+
+/-- hence, whatever the schedule, a batch run on such a device leaves the file as it was and every write
+counted as failed -/
+theorem failing_device_run (N : NumOps) (persist : Bool) (s : Run) (schedule : List Nat)
+    (hp : s.sink.poisoned = false) (hf : s.sink.failing = true)
+    (hw : ∀ r ∈ s.queues.flatten, Writable N s.sink.format r) :
+    (s.exec N persist schedule).sink = s.sink ∧ (s.exec N persist schedule).returned = s.returned ∧
+    (s.exec N persist schedule).failed + (s.exec N persist schedule).queues.flatten.length
+      = s.failed + s.queues.flatten.length := by
+  induction schedule generalizing s with
+  | nil => exact ⟨rfl, rfl, rfl⟩
+  | cons w ws ih =>
+    have hstep : (s.step N persist w).sink = s.sink ∧ (s.step N persist w).returned = s.returned ∧
+        (s.step N persist w).failed + (s.step N persist w).queues.flatten.length
+          = s.failed + s.queues.flatten.length := by
+      unfold Run.step
+      cases hq : s.queues[w]? with
+      | none => exact ⟨rfl, rfl, rfl⟩
+      | some q =>
+        cases q with
+        | nil => exact ⟨rfl, rfl, rfl⟩
+        | cons r rest =>
+          have hperm := flatten_set_perm s.queues w r rest hq
+          have hmem : r ∈ s.queues.flatten := hperm.subset (List.mem_cons_self ..)
+          simp only [failing_device_write N s.sink r hp hf (hw r hmem)]
+          have := hperm.length_eq
+          simp only [List.length_cons] at this
+          refine ⟨trivial, trivial, ?_⟩
+          omega
+    obtain ⟨h1, h2, h3⟩ := hstep
+    have := ih (s.step N persist w) (by rw [h1]; exact hp) (by rw [h1]; exact hf) (by
+      intro r hr
+      rw [h1]
+      apply hw
+      have hq := step_queues N persist s w
+      rw [hq] at hr
+      unfold drainStep at hr
+      split at hr
+      · rename_i r0 rest hq0
+        exact (flatten_set_perm s.queues w r0 rest hq0).subset (List.mem_cons_of_mem _ hr)
+      · exact hr)
+    simp only [Run.exec, List.foldl_cons] at this ⊢
+    refine ⟨by rw [this.1, h1], by rw [this.2.1, h2], by rw [this.2.2, h3]⟩
+
+/-- OBSERVED (I/O failures are outside the property; recorded because the two runners differ): with a file
+policy on a device that refuses writes, `run` under `PersistResponseInMemory` is an error as soon as one
+response was searched (`run_batch_with_responses` propagates the failed write), while under
+`DiscardResponseFromMemory` it succeeds with nothing handed back and nothing written
+(`run_batch_without_responses` drops the error of every write): the responses exist nowhere. -/
+theorem discard_policy_swallows_write_failures (N : NumOps) (sink : FileSink) (queues : List (List Json))
+    (schedule : List Nat) (hp : sink.poisoned = false) (hf : sink.failing = true)
+    (hw : ∀ r ∈ queues.flatten, Writable N sink.format r) (hdone : Complete queues schedule)
+    (hne : queues.flatten ≠ []) :
+    appRun N false sink queues [] schedule = some (sink, []) ∧
+    appRun N true sink queues [] schedule = none := by
+  have run := fun persist => failing_device_run N persist (Run.init sink queues) schedule hp hf hw
+  have hdoneq := fun persist => done_flatten_nil _ (done_of_complete N persist sink queues schedule hdone)
+  constructor
+  · obtain ⟨h1, h2, _⟩ := run false
+    simp only [appRun, writeSeq, Bool.false_and, Bool.false_eq_true, if_false, h1, h2]
+    simp [Run.init]
+  · obtain ⟨_, _, h3⟩ := run true
+    rw [hdoneq true] at h3
+    have hpos : 0 < queues.flatten.length := List.length_pos_iff.2 hne
+    have : ((Run.init sink queues).exec N true schedule).failed > 0 := by
+      simp only [Run.init, List.length_nil] at h3 ⊢
+      omega
+    simp [appRun, writeSeq, this]
+
+/-- `close` on a healthy sink appends exactly the closing record (empty for CSV and newline-delimited JSON,
+the bracket for the JSON array form) and reports the file name; on a poisoned or failing sink it is an
+error and changes nothing.  Nothing else ever writes the closing record: there is no `Drop`. -/
+theorem close_spec (s : FileSink) :
+    (s.Healthy → s.close.file = s.file ++ [record ((finalContents s.format).getD [])] ∧
+      s.closeName = some s.name) ∧
+    (¬ s.Healthy → s.close = s ∧ s.closeName = none) := by
+  unfold FileSink.Healthy FileSink.close FileSink.closeName
+  cases hp : s.poisoned <;> cases hf : s.failing <;> simp
+
+/-- closing a Combined sink whose members are all healthy closes every member and reports the non-empty
+names in order -/
+theorem close_combined_healthy (ss : List FileSink) (h : ∀ s ∈ ss, s.Healthy) :
+    closeCombined ss = (ss.map FileSink.close, some ((ss.map (·.name)).filter (fun n => !n.isEmpty))) := by
+  induction ss with
+  | nil => rfl
+  | cons s ss ih =>
+    have hs := ((close_spec s).1 (h s (List.mem_cons_self ..))).2
+    simp only [closeCombined, hs, ih (fun x hx => h x (List.mem_cons_of_mem _ hx)), List.map_cons,
+      List.filter_cons]
+    cases s.name.isEmpty <;> simp
+
+/-- building a Combined policy stops at the first member that cannot be built; the members before it have
+been built — their files exist by then — and the members after it are untouched -/
+theorem build_all_stops_at_first_failure (before : List Member) (bad : Member) (after : List Member)
+    (hgood : ∀ m ∈ before, ∃ s, buildAt .append m.name m.format m.rate m.path = .ok s)
+    (hbad : ∀ s, buildAt .append bad.name bad.format bad.rate bad.path ≠ .ok s) :
+    buildAll (before ++ bad :: after)
+      = (before.map (fun m => pathAfterOpen .append m.format m.path)
+          ++ pathAfterOpen .append bad.format bad.path :: after.map (·.path), none) := by
+  induction before with
+  | nil =>
+    cases hb : buildAt .append bad.name bad.format bad.rate bad.path with
+    | ok s => exact absurd hb (hbad s)
+    | _ => simp [buildAll, hb]
+  | cons m ms ih =>
+    obtain ⟨s, hs⟩ := hgood m (List.mem_cons_self ..)
+    simp only [List.cons_append, buildAll, hs, ih (fun x hx => hgood x (List.mem_cons_of_mem _ hx)),
+      List.map_cons]
+
+example :
+    let ok : Member := { name := "a.csv", format := .csv [("x", .path "x")] false, rate := none, path := .missing }
+    let bad : Member := { name := "nodir/b.json", format := .json true, rate := none, path := .noParent }
+    let rate0 : Member := { name := "c.json", format := .json false, rate := some 0, path := .missing }
+    (buildAll [ok, bad, ok]).2.isNone = true ∧
+    (match (buildAll [ok, bad, ok]).1 with | [.file h, .noParent, .missing] => h == txt "x\n" | _ => false) = true ∧
+    (match (buildAll [rate0]).1 with | [.file h] => h == txt "[\n" | _ => false) = true ∧
+    (buildAll [ok, ok]).2.isSome = true := by
+  decide
 
 end C19
 end Compass
